@@ -20,6 +20,7 @@ type Env struct {
 	old      *State
 	inOld    bool
 	bound    map[string]Val
+	resolving map[string]bool
 	alias    map[string]string // contract identifier -> local of the code it is bound to (rename-tolerant binding, rename.go)
 }
 
@@ -196,6 +197,14 @@ func (e *Env) ident(name string) Val {
 		return Val{Sort: sig.Res, Term: name}
 	}
 	if a, ok := e.alias[name]; ok && a != name {
+		return e.ident(a)
+	}
+	if a, ok := g.renames[name]; ok && a != name && !e.resolving[name] {
+		if e.resolving == nil {
+			e.resolving = map[string]bool{}
+		}
+		e.resolving[name] = true
+		defer delete(e.resolving, name)
 		return e.ident(a)
 	}
 	g.fail("unknown identifier %q in spec", name)
